@@ -225,10 +225,12 @@ class Ctx:
         return c
 
 
-def _finite(x, what):
+def _finite(x, what, ctx=None):
+    """Overflow-region rule of the regular domain (|value| < 1e8); only 'finite' inside quadrature / lenient mode."""
     v = val(x)
-    if not math.isfinite(v) or abs(v) > BIG:
-        raise OutOfDomain(f'{what}: |value| beyond {BIG:g} or not finite')
+    limit = BIG if (ctx is None or ctx.strict_fragile) else 1e300
+    if not math.isfinite(v) or abs(v) > limit:
+        raise OutOfDomain(f'{what}: |value| beyond {limit:g} or not finite')
     return x
 
 
@@ -292,7 +294,7 @@ def ev(t, ctx):
             raise OutOfDomain('zero divisor')
         if ctx.strict_fragile and abs(val(b)) < 1e-9:
             raise OutOfDomain('divisor smaller than 1e-9')
-        return _finite(a / b, '/')
+        return _finite(a / b, '/', ctx)
     if k == 'neg':
         return -ev(t[1], ctx)
     if k == '**':
@@ -317,15 +319,15 @@ def ev(t, ctx):
                     d2_ = n_ * (n_ - 1) * va ** (n_ - 2) if n_ not in (0, 1) else 0.0
                 except (OverflowError, ZeroDivisionError):
                     raise OutOfDomain('integer power overflow')
-                return _finite(a.chain(f_, d1_, d2_) if isinstance(a, HD) else f_, '**')
+                return _finite(a.chain(f_, d1_, d2_) if isinstance(a, HD) else f_, '**', ctx)
         if val(a) <= 0.0:
             raise OutOfDomain('power of a non-positive number')
         if ctx.strict_fragile and val(a) < 1e-9:
             raise OutOfDomain('power of a number smaller than 1e-9')
-        return _finite(_pow(a, b), '**')
+        return _finite(_pow(a, b), '**', ctx)
     if k == 'exp':
         a = ev(t[1], ctx)
-        if val(a) > 18.0:
+        if val(a) > (18.0 if ctx.strict_fragile else 700.0):
             raise OutOfDomain('exp overflow region')
         return _un(a, math.exp, math.exp, math.exp)
     if k == 'log':
@@ -388,29 +390,29 @@ def ev(t, ctx):
         key = int(kv)
         for kk, e in t[2]:
             if kk == key:
-                return _finite(ev(e, ctx), 'elem')
+                return _finite(ev(e, ctx), 'elem', ctx)
         raise OutOfDomain(f'Elem key {key} absent')
     if k == 'condsum':
         tot = 0.0
         for c, e in t[1]:
             if _truth(ctx, ev(c, ctx), c):
                 tot = tot + ev(e, ctx)
-        return _finite(tot, 'condsum')
+        return _finite(tot, 'condsum', ctx)
     if k == 'multsum':
         tot = 0.0
         for e in t[1]:
             tot = tot + ev(e, ctx)
-        return _finite(tot, 'multsum')
+        return _finite(tot, 'multsum', ctx)
     if k == 'multsumd':
         tot = 0.0
         for _, e in t[1]:
             tot = tot + ev(e, ctx)
-        return _finite(tot, 'multsumd')
+        return _finite(tot, 'multsumd', ctx)
     if k == 'linutil':
         tot = 0.0
         for b, v in t[1]:
             tot = tot + ev(('beta', b), ctx) * ev(('var', v), ctx)
-        return _finite(tot, 'linutil')
+        return _finite(tot, 'linutil', ctx)
     if k in ('loglogit', 'logit'):
         r = _loglogit(t, ctx)
         if k == 'logit':
@@ -426,14 +428,14 @@ def ev(t, ctx):
         tot = 0.0
         for r in range(R):
             tot = tot + ev(t[1], ctx.clone(draw_r=r))
-        return _finite(tot / R if not isinstance(tot, HD) else tot * (1.0 / R), 'mc')
+        return _finite(tot / R if not isinstance(tot, HD) else tot * (1.0 / R), 'mc', ctx)
     if k == 'traj':
         if ctx.rows is None:
             raise OutOfDomain('trajectory without panel rows')
         prod = 1.0
         for row in ctx.rows:
             prod = prod * ev(t[1], ctx.clone(row=row))
-        return _finite(prod, 'traj')
+        return _finite(prod, 'traj', ctx)
     if k == 'integrate':
         return _integrate(t, ctx)
     if k == 'derive':
@@ -490,20 +492,24 @@ def _loglogit(t, ctx):
 
 
 def _integrate(t, ctx):
-    """Integral over the real line in the named random variable: composite Simpson on [-12, 12]
+    """Integral over the real line in the named random variable: composite Simpson on [-40, 40]
     (the statement covers smooth, normally decaying integrands)."""
     name = t[2]
-    n = 4800
-    a, b = -12.0, 12.0
+    n = 12000
+    a, b = -40.0, 40.0
     hstep = (b - a) / n
     tot = 0.0
     for i in range(n + 1):
         x = a + i * hstep
         w = 1.0 if i in (0, n) else (4.0 if i % 2 else 2.0)
-        c = ctx.clone()
+        c = ctx.clone(strict_fragile=False)  # quadrature nodes far in the tails are not 'values' to be compared
         c.rv = dict(ctx.rv)
         c.rv[name] = x
-        tot = tot + ev(t[1], c) * w
+        try:
+            v = ev(t[1], c)
+        except OutOfDomain:
+            raise
+        tot = tot + v * w
     return tot * (hstep / 3.0)
 
 
